@@ -161,6 +161,7 @@ pub fn par_plan(prop: &str, tier: &str) -> ParPlan {
       ("C10", _) => ParPlan { pools: vec![1, 2, 4, 8], reps: 2, perturb: true },
       ("C06", _) => ParPlan { pools: vec![2, 4, 16], reps: 1, perturb: false },
       ("C04", _) => ParPlan { pools: vec![1, 4], reps: 1, perturb: false },
+      ("C03", _) => ParPlan { pools: vec![2, 8], reps: 2, perturb: true },
       _ => ParPlan { pools: vec![4], reps: 1, perturb: false },
    }
 }
